@@ -47,6 +47,9 @@ def plan(tier, seed):
     for (n, m) in pm:
         for api in ('rankings', 'dataset'):
             shards.append({'kind': 'perms', 'n': n, 'm': m, 'api': api})
+    # histories of generator calls in one process: every ordered pair of sizes, every ordered pair of modes
+    for api in ('rankings', 'dataset'):
+        shards.append({'kind': 'history', 'api': api})
     return [{'name': 'generators', 'cfg': {}, 'shards': shards}]
 
 
@@ -353,14 +356,110 @@ def run_perms(ctx, sh):
     ctx.sample({'kind': 'perms', 'n': n, 'm': m, 'api': api, 'schedules': count, 'distinct_results': len(distinct)})
 
 
+def run_history(ctx, sh):
+    """a generator call must not depend on earlier calls: for every ordered pair of sizes (n1, n2) in 1..4 a
+    permutation request of size n1 followed by one of size n2 (every shuffle outcome of the second); for every ordered
+    pair of (n, complete) a Markov request followed by another (every walk of 1 step of the second)."""
+    R, D = _lib['R'], _lib['D']
+    api = sh['api']
+    for n1 in (1, 2, 3, 4):
+        for n2 in (1, 2, 3, 4):
+            def run(ch):
+                try:
+                    if api == 'rankings':
+                        return ('ok', R.uniform_permutations(n2, 2))
+                    return ('ok', D.get_uniform_permutation_dataset(n2, 2))
+                except harness.HarnessError:
+                    raise
+                except Exception as e:
+                    return ('exc', e)
+            # the earlier call, default outcome
+            with chooser.Chooser([]):
+                try:
+                    R.uniform_permutations(n1, 1) if api == 'rankings' else D.get_uniform_permutation_dataset(n1, 1)
+                except Exception:
+                    pass
+            stack = [[]]
+            while stack:
+                pre = stack.pop()
+                # every schedule of the later call is preceded by the same earlier call
+                with chooser.Chooser([]):
+                    try:
+                        R.uniform_permutations(n1, 1) if api == 'rankings' else D.get_uniform_permutation_dataset(n1, 1)
+                    except Exception:
+                        pass
+                ch = chooser.Chooser(pre)
+                with ch:
+                    status, res = run(ch)
+                cs = ch.choices()
+                for i in range(len(pre), len(ch.trace)):
+                    for alt in range(ch.trace[i][1] - 1, 0, -1):
+                        stack.append(cs[:i] + [alt])
+                ctx.evals += 1
+                ctx.cases += 1
+                case = {'cfg': {}, 'kind': 'history', 'api': api, 'first_size': n1, 'n': n2, 'm': 2, 'choices': cs}
+                if status == 'exc':
+                    ctx.violation('permutation-generator-raises', case, None, None, exc=res)
+                    continue
+                rk = res if api == 'rankings' else list(res.rankings)
+                if check_rankings(ctx, case, rk, n2, 2, True, is_perm=True):
+                    ctx.nontrivial += 1
+                if api == 'dataset' and not (res.is_complete and res.without_ties and res.nb_elements == n2):
+                    ctx.violation('permutation-dataset-flags', case, [res.is_complete, res.without_ties, res.nb_elements],
+                                  [True, True, n2])
+    for (na, ca) in ((2, False), (3, False), (2, True)):
+        for (nb, cb) in ((2, False), (3, True), (2, True), (3, False)):
+            def run2(ch):
+                try:
+                    if api == 'rankings':
+                        return ('ok', R.generate_rankings(nb, 2, 1, cb))
+                    return ('ok', D.get_random_dataset_markov(nb, 2, 1, cb))
+                except _lib['Empty'] as e:
+                    return ('empty', e)
+                except harness.HarnessError:
+                    raise
+                except Exception as e:
+                    return ('exc', e)
+            stack = [[]]
+            while stack:
+                pre = stack.pop()
+                # earlier call: a walk that removes an element when it can (choice index 4 = move 5 in incomplete mode)
+                with chooser.Chooser([0, 3 if ca else 4, 1, 3 if ca else 4]):
+                    try:
+                        R.generate_rankings(na, 1, 2, ca)
+                    except Exception:
+                        pass
+                ch = chooser.Chooser(pre)
+                with ch:
+                    status, res = run2(ch)
+                cs = ch.choices()
+                for i in range(len(pre), len(ch.trace)):
+                    for alt in range(ch.trace[i][1] - 1, 0, -1):
+                        stack.append(cs[:i] + [alt])
+                ctx.evals += 1
+                ctx.cases += 1
+                case = {'cfg': {}, 'kind': 'history', 'api': api, 'first': [na, ca], 'n': nb, 'm': 2, 'steps': 1,
+                        'complete': cb, 'choices': cs}
+                if status == 'exc':
+                    ctx.violation('generator-raises', case, None, None, exc=res)
+                elif status == 'ok':
+                    rk = res if api == 'rankings' else list(res.rankings)
+                    if check_rankings(ctx, case, rk, nb, 2, cb):
+                        ctx.nontrivial += 1
+    ctx.count('generator_call_histories')
+    ctx.sample({'kind': 'history', 'api': api})
+
+
 def run_shard(sh):
     ctx = Ctx(ID)
-    {'bfs': run_bfs, 'walks': run_walks, 'perms': run_perms}[sh['kind']](ctx, sh)
+    {'bfs': run_bfs, 'walks': run_walks, 'perms': run_perms, 'history': run_history}[sh['kind']](ctx, sh)
     return ctx.result()
 
 
 def replay(ctx, c):
     k = c['kind']
+    if k == 'history':
+        return run_history(ctx, {'api': c['api']})
     if k in ('bfs', 'convert'):
         run_bfs(ctx, {'n': c['n'], 'complete': c['complete']})
     elif k == 'walks':
